@@ -21,7 +21,8 @@ def declare(reg, eng):
     # asyncio.Condition / Lock as async context managers
     for c in ("Condition", "AsyncLock"):
         reg.contract(f"{c}.__aenter__", params=["self"], modifies=[], effect=f"{c}.enter")
-        reg.contract(f"{c}.__aexit__", params=["self"], modifies=[], effect=f"{c}.exit")
+        # asyncio.Lock / Condition.__aexit__ only calls release(): it never suspends the coroutine
+        reg.contract(f"{c}.__aexit__", params=["self"], modifies=[], effect=f"{c}.exit", no_yield=True)
     reg.contract("Condition.notify_all", params=["self"], modifies=[], effect="notify_all")
     reg.contract("Condition.wait", params=["self"], awaits=True, modifies=[], effect="cond.wait")
     reg.contract("Loop.call_soon", params=["self", "fn"], modifies=[], effect="call_soon")
